@@ -39,6 +39,8 @@ const SIG_LAST_EMPTY: &str = "C24/proxy/values/last-of-empty-stream";
 const SIG_ERROR_ARG_SCOPE: &str = "C24/error-argument-loses-variable-scope";
 /// known finding: index/rindex/indices(string) on an *object* input index the object (`.[$i]`) in jq, give null in succinctly
 const SIG_INDEX_OBJECT: &str = "C24/proxy/index-builtins-on-object-input";
+/// known finding: sqrt is a Newton iteration, 1 ulp off for many inputs (`2|sqrt`)
+const SIG_SQRT: &str = "C24/proxy/values/sqrt-not-correctly-rounded";
 const SIG_FORMAT_LITERAL: &str = "C24/parse-reject/format-string-literal";
 const TWO53: f64 = 9007199254740992.0;
 
@@ -1142,6 +1144,9 @@ fn compare_docs(c: &ProxyCase, env: &ProxyEnv, a: &[DocRes], b: &[DocRes], docs:
                     }
                 }
             }
+            if c.program.contains("sqrt") && ra.ys.len() == rb.ys.len() && ra.ys.iter().zip(rb.ys.iter()).all(|(x, y)| near_eq(x, y)) {
+                fail!(SIG_SQRT, {"case": case()});
+            }
             if c.program.starts_with("last(") && rb.ys.is_empty() && ra.ys.len() == 1 && matches!(ra.ys[0], J::Null) {
                 fail!(SIG_LAST_EMPTY, {"case": case()});
             }
@@ -1179,6 +1184,16 @@ fn compare_docs(c: &ProxyCase, env: &ProxyEnv, a: &[DocRes], b: &[DocRes], docs:
 /// compact text of the outputs with every `[""]` rewritten to `[]`
 fn strip_empty_string_arrays(v: &[J]) -> String {
     v.iter().map(|j| to_compact(j).replace("[\"\"]", "[]")).collect::<Vec<_>>().join("\n")
+}
+
+/// equal up to a few ulps in every number
+fn near_eq(a: &J, b: &J) -> bool {
+    match (a, b) {
+        (J::Num(x), J::Num(y)) => x.value == y.value || (x.value - y.value).abs() <= 1e-15 * x.value.abs().max(y.value.abs()),
+        (J::Arr(x), J::Arr(y)) => x.len() == y.len() && x.iter().zip(y.iter()).all(|(p, q)| near_eq(p, q)),
+        (J::Obj(x), J::Obj(y)) => x.len() == y.len() && x.iter().zip(y.iter()).all(|(p, q)| p.0 == q.0 && near_eq(&p.1, &q.1)),
+        _ => j_eq(a, b),
+    }
 }
 
 fn looks_like_message(s: &str) -> bool {
